@@ -2,7 +2,8 @@
 
    input  (one line, words):  B <nb> (<prefix|~> <uri>)*nb # D <n> <node>*n # A <ast> # A X # ...
           (the D and A sections are copied verbatim from the output of `xh xpath`)
-   output: R <value> P<pos>,<size> # R ...      one per A section, same syntax as the harness *)
+   output: R <value> P<pos>,<size> # R ... # I <wf><inv>     one R per A section, same syntax as the
+           harness; I reports doc_wf_b / doc_inv_b of the table (hypotheses of the C06 / C07 theorems) *)
 
 exception Bad of string
 
@@ -204,5 +205,6 @@ let () = register "xpath" (fun words ->
             out := Printf.sprintf "R %s P%d,%d" s (int_of_n (get_position c')) (int_of_n (get_size c')) :: !out
           | [] -> ()
           | w :: _ -> raise (Bad ("section " ^ w))) secs;
-      String.concat " # " (List.rev !out)
+      let inv = Printf.sprintf "I %d%d" (if doc_wf_b !doc then 1 else 0) (if doc_inv_b !doc then 1 else 0) in
+      String.concat " # " (List.rev (inv :: !out))
     with Bad s -> "badast " ^ s | Failure s -> "badinput " ^ s)
